@@ -1,6 +1,89 @@
-import DdsModel.Drv.Util
-namespace Dds.Drv
+/- Driver section of C06 (stream-position contract) and shared parsing for C07.
 
-def runC06 (_line : String) : String := "not-modelled"
+case lines (space separated):
+  full <fmt> <ch> <pr> <w> <h> <pad> <lim> <pos0> <len> <fault|-> <clamp> <chunk>
+  rect <fmt> <ch> <pr> <W> <H> <x> <y> <w> <h> <pad> <lim> <pos0> <len> <fault|-> <clamp> <chunk>
+`lim` is a number, `d` (default), `n` (the need of the call) or `n-1`; `fault` is an absolute offset,
+optionally prefixed with `t` (reported only once), or `z<k>` (`Ok(0)` once at offset k).  `pad` (row pitch padding of
+the output) and `chunk` (short-read pattern of the reader) do not influence the model: by
+`C06.chunking_irrelevant` the result is the same for every pattern, so the model runs with full reads.
+result: `<res> <final pos> lim=<limit used> <merged trace>` -/
+import DdsModel.Drv.Util
+import DdsModel.Stream
+namespace Dds.Drv
+open Dds Dds.Stream
+
+def resName : Res → String
+  | .ok => "ok" | .ioError => "io" | .memLimit => "mem" | .rectOutOfBounds => "oob" | .panic => "panic"
+
+/-- merge neighbours of the same kind (oldest first) -/
+def mergeLog : List Ev → List Ev
+  | [] => []
+  | e :: t =>
+    match e, mergeLog t with
+    | .seek a, .seek b :: r => .seek (a + b) :: r
+    | .read a, .read b :: r => .read (a + b) :: r
+    | e, r => e :: r
+
+def evStr : Ev → String
+  | .seek d => s!"S{d}"
+  | .read k => s!"R{k}"
+
+def traceStr (log : List Ev) : String :=
+  match mergeLog log.reverse with
+  | [] => "-"
+  | l => ".".intercalate (l.map evStr)
+
+def limitOf (tok : String) (needV : Nat) : Option Nat :=
+  if tok = "d" then some DEFAULT_MEMORY_LIMIT
+  else if tok = "n" then some needV
+  else if tok = "n-1" then some (needV - 1)
+  else tok.toNat?
+
+/-- parses `<kind> <fmt> <ch> <pr> <dims…>`; returns family, colour, call and the remaining tokens -/
+def parseCall (ts : List String) : Option (Fam × Colour × Call × List String) :=
+  match ts with
+  | "full" :: fmt :: ch :: pr :: w :: h :: rest => do
+    let f ← lookupFormat fmt
+    let ch ← ch.toNat?
+    let pr ← pr.toNat?
+    let w ← w.toNat?
+    let h ← h.toNat?
+    if ch > 3 ∨ pr > 2 then none else
+    some (f, (ch, pr), .full w h, rest)
+  | "rect" :: fmt :: ch :: pr :: W :: H :: x :: y :: w :: h :: rest => do
+    let f ← lookupFormat fmt
+    let ch ← ch.toNat?
+    let pr ← pr.toNat?
+    let ns ← natsOf [W, H, x, y, w, h]
+    if ch > 3 ∨ pr > 2 then none else
+    match ns with
+    | [W, H, x, y, w, h] => some (f, (ch, pr), .rect W H x y w h, rest)
+    | _ => none
+  | _ => none
+
+def runC06 (line : String) : String :=
+  match parseCall (toks line) with
+  | none => "bad-case"
+  | some (f, c, call, rest) =>
+    match rest with
+    | [_pad, lim, pos0, len, fault, clamp, _chunk] =>
+      let p := plan f c call
+      match limitOf lim (planNeed p), pos0.toNat?, len.toNat?, clamp.toNat? with
+      | some limit, some pos0, some len, some clamp =>
+        -- `t<k>`: the error is reported only once; the decode stops at the first error, so the model's
+        -- outcome is that of the persistent error at `k`
+        let eofOnce : Option Nat := if fault.startsWith "z" then (fault.drop 1).toString.toNat? else none
+        let fault := if fault.startsWith "z" then "-" else fault
+        let fault := if fault.startsWith "t" then (fault.drop 1).toString else fault
+        let fault? : Option (Option Nat) := if fault = "-" then some none else fault.toNat?.map some
+        match fault? with
+        | none => "bad-case"
+        | some fault =>
+          let e : Env := { len := len, fault := fault, clampSeek := clamp ≠ 0, eofOnce := eofOnce }
+          let (r, st) := run e [] p pos0 limit
+          s!"{resName r} {st.pos} lim={limit} {traceStr st.log}"
+      | _, _, _, _ => "bad-case"
+    | _ => "bad-case"
 
 end Dds.Drv
